@@ -77,6 +77,15 @@ M = [
  ('m_c20_remove_commit', 'C20', 'cylc/flow/task_pool.py',
   "            self.workflow_db_mgr.put_update_task_state(itask)\n\n            level = logging.DEBUG",
   "            level = logging.DEBUG"),
+ ('m_c33_inflight', 'C33', 'cylc/flow/xtrigger_mgr.py',
+  "            if sig in self.active:\n                # Already waiting on this result.\n                continue",
+  "            if False and sig in self.active:\n                # Already waiting on this result.\n                continue"),
+ ('m_c33_interval', 'C33', 'cylc/flow/xtrigger_mgr.py',
+  "            self.t_next_call[sig] = now + ctx.intvl",
+  "            self.t_next_call[sig] = now + ctx.intvl / 2"),
+ ('m_c33_nocache', 'C33', 'cylc/flow/xtrigger_mgr.py',
+  "        self.sat_xtrig[sig] = results\n\n        self.do_housekeeping = True",
+  "        self.do_housekeeping = True"),
  ('m_c09_started_back', 'C09', 'cylc/flow/task_events_mgr.py',
   "            if flag == self.FLAG_RECEIVED and itask.state.is_gt(\n                TASK_STATUS_RUNNING\n            ):\n                # Already running.\n                return True",
   "            if False:\n                # Already running.\n                return True"),
